@@ -80,7 +80,39 @@ pub fn run(d: &Detector, src: &str, file_no: usize) -> BTreeSet<i32> {
 }
 
 pub fn run_guarded(d: &Detector, src: &str, file_no: usize) -> Result<BTreeSet<i32>, String> {
-    crate::util::guarded(|| run(d, src, file_no))
+    let id = std::thread::current().id();
+    if let Ok(mut w) = WATCH.lock() {
+        w.push((id, std::time::Instant::now(), d.name, src.to_string()));
+    }
+    let r = crate::util::guarded(|| run(d, src, file_no));
+    if let Ok(mut w) = WATCH.lock() {
+        w.retain(|e| e.0 != id);
+    }
+    r
+}
+
+static WATCH: std::sync::Mutex<Vec<(std::thread::ThreadId, std::time::Instant, &'static str, String)>> = std::sync::Mutex::new(Vec::new());
+
+/// Start a watchdog thread: when one detector call has not returned within `secs` seconds,
+/// `on_hang(detector, source)` is called (it normally reports and ends the process).
+pub fn start_watchdog(secs: u64, on_hang: fn(&str, &str)) {
+    std::thread::spawn(move || loop {
+        std::thread::sleep(std::time::Duration::from_millis(500));
+        let stuck = match WATCH.lock() {
+            Ok(w) => w.iter().find(|e| e.1.elapsed().as_secs() >= secs).map(|e| (e.2, e.3.clone())),
+            Err(_) => None,
+        };
+        if let Some((d, s)) = stuck {
+            on_hang(d, &s);
+        }
+    });
+}
+
+/// Default reaction outside C04: a hanging detector is not this check's property; stop as a
+/// machinery error instead of running forever.
+pub fn hang_is_machinery(det: &str, src: &str) {
+    eprintln!("MACHINERY: detector {} did not return within the watchdog limit on input {:?}", det, src);
+    std::process::exit(2);
 }
 
 pub fn unit_test_for(d: &Detector, src: &str, what: &str) -> String {
